@@ -23,7 +23,7 @@ META = {
         "the empty permutation; 1 <= m <= min(n, 4); each A is fed as list, dict and predicate. Oracle (reference "
         "mesh containment): soundness up to n, completeness up to m, irredundancy of every shaded cell, equality of "
         "the three input forms; the algorithm's private containment tests and maximal_mesh_pattern_of_occurrence "
-        "against the reference model; every basis from run_clean_up hits every bad permutation it was tested on and "
+        "against the reference model; the driver's two sanity checks (patterns_suffice_for_good / _for_bad) two-sided on generated patterns and good/bad dictionaries with intruders placed at chosen lengths (only at the last length L in half the cases), a missing length key and stop_on_failure; every basis from run_clean_up hits every bad permutation it was tested on and "
         "round-trips through to_sg_format; auto_bisc on 'avoids P' properties must return patterns whose avoidance "
         "coincides with the property on all 46 234 permutations of length <= 8 (time budget hit = inconclusive). "
         "Non-trivial: the learned output is non-empty and has a pattern of length >= 2 or a non-empty shading. "
@@ -188,6 +188,61 @@ def check_private(case):
     return OK(bool(ref.occ(p, t)) and any(Rs), "private")
 
 
+def _sg_of(patts, pad):
+    SG = {}
+    for p, sh in patts:
+        SG.setdefault(len(p), {}).setdefault(Perm(p), []).append(set(sh))
+    if pad:
+        for k in range(max(SG) + 1):
+            SG.setdefault(k, {})
+        SG = dict(sorted(SG.items()))
+    return SG
+
+
+def check_suffice(case):
+    """The two sanity checks the driver relies on (patterns_suffice_for_good / _for_bad), as
+    two-sided tests: generated patterns, generated good / bad dictionaries with intruders placed
+    at chosen lengths (in particular only at the last length L), a missing length key, and
+    stop_on_failure.  Oracle: reference mesh containment, first offending length wins."""
+    patts = [(tuple(b[0]), frozenset(tuple(c) for c in b[1])) for b in case["patts"]]
+    L = case["L"]
+    SG = _sg_of(patts, case.get("pad", False))
+
+    def contains(t):
+        return any(ref.mesh_contains(t, p, sh) for p, sh in patts)
+
+    intr_good = {tuple(t) for t in case.get("intruders_good", [])}
+    intr_bad = {tuple(t) for t in case.get("intruders_bad", [])}
+    missing = case.get("missing")
+    A, B = {}, {}
+    for n in range(L + 1):
+        A[n] = [Perm(t) for t in ref.perms(n) if not contains(t) or t in intr_good]
+        B[n] = [Perm(t) for t in ref.perms(n) if (contains(t) and t not in intr_good) or t in intr_bad]
+    if missing is not None:
+        A.pop(missing, None)
+        B.pop(missing, None)
+    for name, fn, D, offends in (("good", sub.patterns_suffice_for_good, A, contains), ("bad", sub.patterns_suffice_for_bad, B, lambda t: not contains(t))):
+        for stop in (False, True):
+            want = (True, [])
+            for n in range(L + 1):
+                if n not in D:
+                    want = (False, [])
+                    break
+                off = [tuple(a) for a in D[n] if offends(tuple(a))]
+                if off:
+                    want = (False, off[:1] if stop else off)
+                    break
+            ok, lst = _quiet(fn, SG, L, D, stop)
+            got = (bool(ok), [tuple(x) for x in lst])
+            if got != want:
+                return BAD(f"patterns_suffice_for_{name}", {"stop_on_failure": stop, "got": [got[0], [list(t) for t in got[1][:4]]], "want": [want[0], [list(t) for t in want[1][:4]]]})
+    lens_g = sorted({len(t) for t in intr_good})
+    labels = ["intruder_only_at_L" if lens_g == [L] else "intruders" if lens_g else "no_intruder"]
+    if missing is not None:
+        labels.append("missing_key")
+    return OK(bool(intr_good or intr_bad), *labels)
+
+
 class _Timeout(Exception):
     pass
 
@@ -224,7 +279,7 @@ def check_auto(case):
     return OK(True, "auto_bisc_described")
 
 
-CHECKS = {"bisc": check_bisc, "private": check_private, "auto": check_auto}
+CHECKS = {"bisc": check_bisc, "private": check_private, "auto": check_auto, "suffice": check_suffice}
 
 
 # ------------------------------------------------------------------ generators
@@ -261,6 +316,26 @@ def private_cases(draw):
 
 
 @st.composite
+def suffice_cases(draw, max_L):
+    patts = [draw(gen.mesh_patterns(1, 3, draw(st.sampled_from(["sparse", "sparse", "half", "empty"])))) for _ in range(draw(st.integers(1, 3)))]
+    L = draw(st.integers(max(len(b[0]) for b in patts), max_L))
+    rp = [(tuple(b[0]), frozenset(tuple(c) for c in b[1])) for b in patts]
+    case = {"patts": patts, "L": L, "pad": draw(st.booleans())}
+    for key, want_contains in (("intruders_good", True), ("intruders_bad", False)):
+        mode = draw(st.sampled_from(["none", "last", "last", "any"]))
+        if mode == "none":
+            continue
+        lengths = [L] if mode == "last" else list(range(L + 1))
+        pool = [t for n in lengths for t in ref.perms(n) if any(ref.mesh_contains(t, p, sh) for p, sh in rp) == want_contains]
+        if pool:
+            idx = draw(st.lists(st.integers(0, len(pool) - 1), min_size=1, max_size=3, unique=True))
+            case[key] = [list(pool[i]) for i in sorted(idx)]
+    if draw(st.integers(0, 7)) == 0:
+        case["missing"] = draw(st.integers(0, L))
+    return case
+
+
+@st.composite
 def auto_cases(draw, budget):
     k = draw(st.integers(1, 2))
     patts = []
@@ -275,6 +350,7 @@ def auto_cases(draw, budget):
 def shard_generated(acc, shard, nshards, n_bisc, n_priv, n_auto, budget):
     engine.hyp_run(acc, "bisc", check_bisc, bisc_cases(5 if n_bisc < 200 else 6), n_bisc, shard)
     engine.hyp_run(acc, "private", check_private, private_cases(), n_priv, shard)
+    engine.hyp_run(acc, "suffice", check_suffice, suffice_cases(5 if n_bisc < 200 else 6), max(20, n_priv // 3), shard)
     if n_auto:
         engine.hyp_run(acc, "auto", check_auto, auto_cases(budget), n_auto, shard)
 
